@@ -474,24 +474,38 @@ impl Space for SmallMatrices {
         let ty = ["PlainTime", "PlainDateTime", "Instant", "ZonedDateTime", "Duration"][ix[2]];
         let attrs = || vec![("type", ty.to_string()), ("smallest", smallest.name().to_string()), ("precision", format!("{:?}", prec.0))];
         let opts = || ToStringRoundingOptions { precision: prec.0, smallest_unit: iuopt(smallest), rounding_mode: None };
-        let got: Oc<String> = match ty {
-            "PlainTime" => call(|| PlainTime::try_new(13, 14, 15, 16, 17, 18).unwrap().to_ixdtf_string(opts())),
-            "PlainDateTime" => call(|| PlainDateTime::try_new(2021, 3, 20, 13, 14, 15, 16, 17, 18, Calendar::default()).unwrap().to_ixdtf_string(opts(), DisplayCalendar::Auto)),
-            "Instant" => call(|| Instant::try_new(1_600_047_655_135_468_801).unwrap().to_ixdtf_string_with_provider(None, opts(), &UtcProvider)),
-            "ZonedDateTime" => call(|| {
-                ZonedDateTime::try_new(1_600_047_655_135_468_801, Calendar::default(), TimeZone::try_from_str("UTC").unwrap())
-                    .unwrap()
-                    .to_ixdtf_string_with_provider(Default::default(), Default::default(), Default::default(), opts(), &UtcProvider)
-            }),
-            _ => call(|| dur10([1., 2., 3., 4., 5., 6., 7., 8., 9., 10.]).unwrap().as_temporal_string(opts())),
+        // receivers whose every dropped fraction is above one half, so that the rounding mode in force shows
+        let print = |o: ToStringRoundingOptions| -> Oc<String> {
+            match ty {
+                "PlainTime" => call(|| PlainTime::try_new(13, 14, 15, 789, 876, 543).unwrap().to_ixdtf_string(o)),
+                "PlainDateTime" => call(|| PlainDateTime::try_new(2021, 3, 20, 13, 14, 15, 789, 876, 543, Calendar::default()).unwrap().to_ixdtf_string(o, DisplayCalendar::Auto)),
+                "Instant" => call(|| Instant::try_new(1_600_047_655_789_876_543).unwrap().to_ixdtf_string_with_provider(None, o, &UtcProvider)),
+                "ZonedDateTime" => call(|| {
+                    ZonedDateTime::try_new(1_600_047_655_789_876_543, Calendar::default(), TimeZone::try_from_str("UTC").unwrap())
+                        .unwrap()
+                        .to_ixdtf_string_with_provider(Default::default(), Default::default(), Default::default(), o, &UtcProvider)
+                }),
+                _ => call(|| dur10([1., 2., 3., 4., 5., 6., 7., 789., 876., 543.]).unwrap().as_temporal_string(o)),
+            }
         };
+        let got: Oc<String> = print(opts());
         let mut verdict = resolve_to_string(smallest, prec.1);
         if ty == "Duration" && smallest == UOpt::Unit(U::Minute) {
             verdict = Err(()); // Duration.toString refuses hour and minute
         }
         match verdict {
             Ok(()) => {
-                out.lockstep("toString(valid options)", &Ok(()), &got, |_, _| true, attrs);
+                if out.lockstep("toString(valid options)", &Ok(()), &got, |_, _| true, attrs) {
+                    if let Oc::Ok(text) = &got {
+                        // the defaults: an absent mode is trunc; a smallest unit overrides the digit count
+                        let explicit = print(ToStringRoundingOptions { precision: prec.0, smallest_unit: iuopt(smallest), rounding_mode: Some(temporal_rs::options::RoundingMode::Trunc) });
+                        out.lockstep("toString: absent mode = trunc", &Ok(text.clone()), &explicit, |a, b| a == b, attrs);
+                        if iuopt(smallest).is_some() && smallest != UOpt::Auto {
+                            let unit_only = print(ToStringRoundingOptions { precision: Precision::Auto, smallest_unit: iuopt(smallest), rounding_mode: None });
+                            out.lockstep("toString: smallestUnit overrides fractionalSecondDigits", &Ok(text.clone()), &unit_only, |a, b| a == b, attrs);
+                        }
+                    }
+                }
             }
             Err(()) => {
                 out.lockstep("toString(invalid options)", &Err::<(), _>(ErrorKind::Range), &got, |_, _| true, attrs);
